@@ -11,6 +11,26 @@ import (
 // to the SAME check function the rapid units use, so the semantic oracle (not only "no crash")
 // runs on every input. Seeds: valid encodings from the independent encoder + hostile constants.
 
+// replayed runs the saved case of a replay file (driver: ./check C08 --replay file) instead of the
+// fuzz input; it reports whether it did so.
+func replayed[C any](t *testing.T, unit string, check func(C, *vf.Unit) *vf.Verdict) bool {
+	if !vf.ReplayMode() {
+		return false
+	}
+	raw, ok := vf.ReplayCase(t, unit)
+	if !ok {
+		return true
+	}
+	var c C
+	if err := jsonUnmarshal(raw, &c); err != nil {
+		t.Fatalf("bad replay case: %v", err)
+	}
+	u := vf.U(unit)
+	u.Case()
+	failFuzz(t, u, vf.Guard(unit, func() *vf.Verdict { return check(c, vf.Scratch()) }), c)
+	return true
+}
+
 func failFuzz(t *testing.T, u *vf.Unit, v *vf.Verdict, c any) {
 	if v == nil {
 		return
@@ -60,6 +80,9 @@ func FuzzFrames(f *testing.F) {
 	}
 	u := vf.U("fuzz-frames")
 	f.Fuzz(func(t *testing.T, in []byte) {
+		if replayed(t, "fuzz-frames", checkFramesBytes) {
+			return
+		}
 		if len(in) < 2 {
 			return
 		}
@@ -104,6 +127,9 @@ func FuzzHeader(f *testing.F) {
 	}
 	u := vf.U("fuzz-header")
 	f.Fuzz(func(t *testing.T, in []byte) {
+		if replayed(t, "fuzz-header", checkHeaderBytes) {
+			return
+		}
 		if len(in) < 1 {
 			return
 		}
@@ -151,6 +177,9 @@ func FuzzTransportParameters(f *testing.F) {
 	}
 	u := vf.U("fuzz-tparams")
 	f.Fuzz(func(t *testing.T, in []byte) {
+		if replayed(t, "fuzz-tparams", checkTPBytes) {
+			return
+		}
 		if len(in) < 1 {
 			return
 		}
@@ -172,6 +201,9 @@ func FuzzTokens(f *testing.F) {
 	f.Add(sealToken(key, [32]byte{1}, []byte{0x30, 0x00}))
 	u := vf.U("fuzz-tokens")
 	f.Fuzz(func(t *testing.T, in []byte) {
+		if replayed(t, "fuzz-tokens", checkToken) {
+			return
+		}
 		c := TokenCase{Mode: "bytes", Key: key, Data: clip(in, 512), IP: make([]byte, 4)}
 		u.Case()
 		failFuzz(t, u, vf.Guard("fuzz-tokens", func() *vf.Verdict { return checkToken(c, vf.Scratch()) }), c)
@@ -189,6 +221,9 @@ func FuzzVarint(f *testing.F) {
 	f.Add([]byte{0xc0}, uint64(0), byte(1))
 	u := vf.U("fuzz-varint")
 	f.Fuzz(func(t *testing.T, in []byte, v uint64, w byte) {
+		if replayed(t, "fuzz-varint", checkVarint) {
+			return
+		}
 		c := VarintCase{Data: clip(in, 16), V: v & refwire.MaxVarint, W: 1 << (w & 3)}
 		u.Case()
 		failFuzz(t, u, vf.Guard("fuzz-varint", func() *vf.Verdict { return checkVarint(c, vf.Scratch()) }), c)
@@ -211,6 +246,9 @@ func FuzzRepoEntryPoints(f *testing.F) {
 	f.Add(append([]byte{3}, make([]byte, 60)...))
 	u := vf.U("fuzz-repo-entrypoints")
 	f.Fuzz(func(t *testing.T, in []byte) {
+		if replayed(t, "fuzz-repo-entrypoints", checkRepoFuzz) {
+			return
+		}
 		if len(in) < 1 {
 			return
 		}
